@@ -362,27 +362,138 @@ const zzC09TabAlpha = "019,@:v#-"
 
 var zzC09TabTab = zzC09MakeTab(zzC09TabAlpha)
 
+// zzC09TabInts: the fixnum arguments of C09.format.tab.
+var zzC09TabInts = []int64{0, 3, -1, 1 << 40}
+
 // VerifC09FormatTab: the column arithmetic of ~T needs five bytes (~,0@T):
 // control string = prefix text + "~" + n symbolic bytes over 0 1 9 , @ : v # - +
-// "t"; prefix 0 "", 1 "ab", 2 "a" newline "bcd"; two fixnum arguments (for v)
-// from zzC09FmtInts (engine forks).
-func VerifC09FormatTab(n, prefix int) {
+// "t"; prefix 0 "", 1 "ab", 2 "a" newline "bcd"; g < 0: no argument and no v
+// in the string; g >= 0: the two fixnum arguments zzC09TabInts[g/4] and
+// zzC09TabInts[g%4], and at least one v.
+func VerifC09FormatTab(n, prefix, g int) {
 	mid := vrt.Bytes("ctl", n)
+	nv := 0
 	for i := range mid {
 		vrt.Assume(zzC09TabTab[mid[i]] == 1)
+		if mid[i] == 'v' {
+			nv++
+		}
 	}
 	ctl := []byte([]string{"", "ab", "a\nbcd"}[prefix] + "~")
 	ctl = append(ctl, mid...)
 	ctl = append(ctl, 't')
 	var ints []int64
-	form := slip.List{slip.Symbol("format"), nil, slip.String(ctl), zzC09FmtArg(0, 0, &ints), zzC09FmtArg(1, 0, &ints)}
-	zzC09TabCarves(mid, ints)
+	form := slip.List{slip.Symbol("format"), nil, slip.String(ctl)}
+	if g < 0 {
+		vrt.Assume(nv == 0)
+	} else {
+		vrt.Assume(0 < nv)
+		ints = []int64{zzC09TabInts[g/4], zzC09TabInts[g%4]}
+		form = append(form, slip.Fixnum(ints[0]), slip.Fixnum(ints[1]))
+	}
+	zzC09TabCarves(mid, ints, prefix)
 	zzC09Streams()
 	zzC09Guarded(slip.NewScope(), form, ints)
 }
 
-// zzC09TabCarves: regions of the recorded findings of C09.format.tab.
-func zzC09TabCarves(mid []byte, ints []int64) {
+// zzC09TabCarves: regions of the recorded findings of C09.format.tab, from an
+// independent parse of the parameter part: parameters are separated by
+// commas, a number token runs over digits - v # up to the next , : @ (and must
+// be a decimal integer), v takes the next argument, # the number of arguments
+// left; : and @ may appear once each and no comma may follow them.
+func zzC09TabCarves(mid []byte, ints []int64, prefix int) {
+	var vals []int64 // parameter values
+	var has []bool   // false: omitted parameter
+	colon, at := false, false
+	argPos := 0
+	missing, valid, huge := false, true, false
+	i := 0
+	for i < len(mid) && valid && !missing {
+		b := mid[i]
+		switch {
+		case b == ':':
+			if colon {
+				valid = false
+			}
+			colon = true
+			i++
+		case b == '@':
+			if at {
+				valid = false
+			}
+			at = true
+			i++
+		case b == ',':
+			if colon || at {
+				valid = false
+			}
+			if i == 0 || mid[i-1] == ',' {
+				vals = append(vals, 0)
+				has = append(has, false)
+			}
+			i++
+		case b == '#':
+			vals = append(vals, int64(len(ints)-argPos))
+			has = append(has, true)
+			i++
+		case b == 'v':
+			if len(ints) <= argPos {
+				missing = true
+			} else {
+				vals = append(vals, ints[argPos])
+				has = append(has, true)
+				if zzC09Huge < ints[argPos] {
+					huge = true
+				}
+				argPos++
+			}
+			i++
+		default:
+			// a number token: - and digits, ended by , : @ (v and # inside
+			// the token make it unparsable)
+			j := i
+			for j < len(mid) && mid[j] != ',' && mid[j] != ':' && mid[j] != '@' {
+				j++
+			}
+			neg := mid[i] == '-'
+			k := i
+			if neg {
+				k++
+			}
+			var x int64
+			if k == j {
+				valid = false
+			}
+			for ; k < j; k++ {
+				if mid[k] < '0' || '9' < mid[k] {
+					valid = false
+					break
+				}
+				x = x*10 + int64(mid[k]-'0')
+			}
+			if neg {
+				x = -x
+			}
+			vals = append(vals, x)
+			has = append(has, true)
+			i = j
+		}
+	}
+	vrt.Carve("C09-format-missing-argument", missing)
+	colnum, colinc := int64(0), int64(1)
+	if 0 < len(vals) && has[0] {
+		colnum = vals[0]
+	}
+	if 1 < len(vals) && has[1] {
+		colinc = vals[1]
+	}
+	ok := valid && !missing && 0 <= colnum && 0 <= colinc
+	from := []int64{0, 2, 3}[prefix]
+	// colinc 0: from/colinc (with @ always; without @ when the target column
+	// colnum*colinc = 0 lies before the current column)
+	vrt.Carve("C09-format-tab-zero-colinc", ok && colinc == 0 && (at || 0 < from))
+	// a column or increment above 2^31 taken from an argument: padding loop
+	vrt.Carve("C09-format-parameter-unbounded", ok && huge)
 }
 
 // zzC09FmtCarves: regions of the recorded findings of C09.format.
@@ -753,6 +864,12 @@ func zzC09IdxCarves(row, kind, n int, ints []int64) {
 	switch row {
 	case 1, 21, 22, 23, 33, 34:
 		startGtEnd = kind != 3 && 0 <= b && b < a && a <= ln
+	case 138, 139, 140: // the same on the two-character string "éa"
+		startGtEnd = 0 <= b && b < a && a <= 2
+	case 17: // search: bounds of the first sequence (length 2)
+		startGtEnd = 0 <= b && b <= 2 && b < a
+	case 18: // search: bounds of the second sequence
+		startGtEnd = 0 <= b && b <= ln && b < a
 	}
 	vrt.Carve("C09-index-start-greater-than-end", startGtEnd)
 	// fixnum division by a zero divisor
@@ -798,7 +915,19 @@ func zzC09IdxCarves(row, kind, n int, ints []int64) {
 		be = ln
 	}
 	vrt.Carve("C09-plain-string-panic", row == 69 && (a < 0 || ln <= a || ln < be || be < a))
-	vrt.Carve("C09-reduce-empty-sequence", row == 43 && kind == 0 && n == 0)
+	vrt.Carve("C09-empty-sequence-type-assertion", (row == 43 && kind == 0 && n == 0) || row == 149 || row == 150 || row == 151)
+	// "éa": 2 characters in 3 bytes; bounds are checked against the byte
+	// length and then applied to the characters
+	multibyte := false
+	switch row {
+	case 137, 141, 142, 143:
+		multibyte = b == 3 && 0 <= a && a <= 3
+	case 136:
+		multibyte = 0 <= a && a <= 2
+	case 148:
+		multibyte = a < b && 2 < b
+	}
+	vrt.Carve("C09-multibyte-string-bounds", multibyte)
 }
 
 // ---- (d) type tuples ----
